@@ -188,6 +188,9 @@ def check(run, prog, tier):
     run.rule("C02-O", "an evolution answers from the states it has stored: a state object handed to it at construction, whose "
                       "values were copied into the storage, is the caller's and is not read again for a result", minimum=1)
     rule_O(run, prog)
+    run.rule("C02-P", "the stored states are of degree one in the initial state in every propagation routine without a field (degree "
+                      "analysis): no renormalisation of trace or norm, no clipping, no added constant between rho(0) and rho(t)", minimum=9)
+    rule_P(run, prog)
     run.rule("C02-L", "what the propagated state is measured with is Hermitian: the scalar product of state vectors conjugates its "
                       "first vector; the eigenvector matrix of a Hamiltonian is inverted by its Hermitian conjugate", minimum=5)
     rule_L(run, prog)
@@ -768,6 +771,51 @@ def rule_M(run, prog):
                                    % (f.short, norm(c)[:60]), loc=f.loc(c))
     if n < 3:
         raise AnalysisError("only %d phase factors found in the conversions from the rotating frame (3 confirmed)" % n)
+
+
+LINEAR_ROUTINES = (
+    ("quantarhei.qm.propagators.svpropagator.StateVectorPropagator",
+     ("_propagate_short_exp", "_propagate_short_exp_tdep", "_initial_state_in_RWA")),
+    ("quantarhei.qm.propagators.rdmpropagator.ReducedDensityMatrixPropagator",
+     ("__propagate_short_exp", "__propagate_short_exp_with_relaxation", "__propagate_short_exp_with_rel_operators",
+      "__propagate_short_exp_with_TD_relaxation", "__propagate_short_exp_with_TDrel_operators", "_initial_state_in_RWA")),
+)
+
+
+def rule_P(run, prog, rid="C02-P", routines=LINEAR_ROUTINES, floor=9):
+    """'... agree with the exact exponential of the GKSL generator', 'norm, purity and energy are conserved within the
+    truncation bound': exp(L t) rho0 is linear in rho0, and the conservation laws are consequences of the generator, not
+    something the integrator may enforce.  Every propagation routine (state vector, density matrix with and without
+    relaxation, both tensor forms, time-dependent tensors) is followed from the initial state to the evolution it returns
+    (qv/lin.py: zero / independent of the state / linear / anything else; the helpers _COM, _TTI, _OTI and the
+    constructors of the evolutions are followed, `apply` and `initial_term` of the relaxation tensor are taken as linear
+    in their argument).  A division by the trace or the norm of the running state, a clipping of populations, an added
+    constant give 'anything else': the result is right for states of one particular normalisation only - and wrong for
+    the differences of states and the basis elements from which the evolution superoperator is built."""
+    from .. import lin
+    n = 0
+    for q, names in routines:
+        cls = prog.cls(q)
+        for nme in names:
+            f = cls.methods.get(nme) or cls.methods.get("_%s%s" % (cls.name, nme))
+            if f is None:
+                raise AnalysisError("%s.%s: propagation routine not found" % (cls.name, nme))
+            prog.consulted.add(f.relpath)
+            par = f.node.args.args[1].arg
+            dg = lin.Degrees(prog, cls, func=f, linear_methods=("apply", "initial_term", "get_RWA_data"))
+            env = {a.arg: lin.C for a in f.node.args.args[1:]}
+            env[par] = lin.L
+            d = dg.run(f.node, env)
+            n += 1
+            at = dg.trace[-1] if dg.trace else f.node
+            run.obligation(rid, f.short, d == lin.L, key="linear-in-initial-state",
+                           message="%s returns states of degree %s in %s (L = linear); linearity is lost at `%s`.  The propagated "
+                                   "state then equals exp(L t) rho0 only for initial states of one normalisation; applied to the "
+                                   "basis elements |a><b| (trace 0 or 1) it gives an evolution superoperator that does not "
+                                   "reproduce propagation" % (f.short, d, par, norm(at)[:70] if dg.trace else ""),
+                           loc=f.loc(at) if dg.trace and hasattr(at, "lineno") else f.loc(f.node), sample={"degree": d})
+    if n < floor:
+        raise AnalysisError("%s: only %d propagation routines analysed" % (rid, n))
 
 
 def rule_O(run, prog):
